@@ -159,6 +159,8 @@ def node_spec(pid, projection, monitor, text, partial, design_ref, explanation, 
     }
 
 
+PL_NOTE = " The abstract protocol P/Log.v (superposed on P/Election.v) is tied to the code by the executable acceptor P/LogAccept.v (proved sound: an accepted trace is a P execution), run on the P-level event trace of every simulated execution up to its first applied membership change: per API call the acting node's full (ghost, never compacted) log, commit index and the append acknowledgements it created; every change of a node's durable log; every released acknowledgement; plus the election-layer events. Each observed log change must be explained by a P rule (a leader appends, a follower adopts a prefix of its term's leader log, acknowledgements only for prefixes shared with that log and released only once durable, commits only by the quorum rule or up to a commit point, a log image becomes durable only after the hard state of its entries' terms)."
+
 SPECS["C16"] = node_spec(
     "C16", ["hard", "timers", "msgs.vote"], "prevote",
     "Props/C16.v: for every node state and every message, handling a pre-vote request leaves term and vote unchanged (all paths), and under the check-quorum lease a higher-term (pre)vote request that is not a forced transfer changes nothing and emits nothing. The node model is tied to src/raft.rs by the pointwise differential on term/vote/role/leader/timers and vote traffic of every simulated call.",
@@ -168,12 +170,37 @@ SPECS["C16"] = node_spec(
 
 SPECS["C03"] = node_spec(
     "C03", ["hard", "msgs.vote", "log"], "vote_restriction",
-    "Props/C03.v: for every node state and every vote or pre-vote request, a non-rejecting response is emitted only if the candidate's last (term, index) is at least the voter's own and the priority tie-break holds (the election restriction), proved on the node model for all states/messages; tied to src/raft.rs + src/raft_log.rs by the pointwise differential on vote handling.",
-    "leader completeness over executions (invariant LC) is not yet proved.",
+    "Props/C03.v: (node model, every state and every vote or pre-vote request) a non-rejecting response is emitted only if the candidate's last (term, index) is at least the voter's own and the priority tie-break holds; (abstract protocol P/Log.v, every execution with crashes, restarts, separate persistence of hard state and log, message loss/duplication/reordering) leader completeness: the log of every leader of a term >= T contains every commit point (T, k) of the leader of T with identical entries, every index any node reports committed is covered by such a commit point, and the grant rule enforces the election restriction against the log the candidate campaigned with." + PL_NOTE,
+    "fixed voter configuration within an execution, no single-node quorum; snapshots only as forgotten committed prefixes (the ghost full log).",
     "DESIGN.md section 7, C03",
-    "Theorems: Props/C03.v. Tie: pointwise differential, projection hard+log+vote traffic.")
+    "Theorems: Props/C03.v over M/Raft.v (per step) and P/Log.v (LogSafety.v). Ties: (A) pointwise differential, projection hard+log+vote traffic; (B) log-layer acceptor.",
+    acceptor="plog")
 
 P_NOTE = " The abstract protocol P/Election.v is tied to the code by the executable acceptor P/ElectionAccept.v (proved sound: an accepted trace is a P execution), run on the P-level event trace (per-call term/vote/role, hard-state hand-out and fsync, released vote requests/grants/leader traffic, crashes, restarts) of every simulated execution up to its first applied membership change."
+
+SPECS["C05"] = node_spec(
+    "C05", ["log"], "log_matching",
+    "Props/C05.v: in every execution of the abstract protocol, any two logs (volatile logs with unpersisted entries, durable logs, log images in flight to storage) of any two nodes that hold the same term at an index are identical up to that index; a node in the leader role only appends to its log; over every step other than its own crash a node's commit index does not decrease and its log is unchanged up to the old commit index, and the commit index stays within the log; a crash falls back exactly to the durable log." + PL_NOTE + " The message-level mechanics (prev-index/term check, conflict search, truncation) are theorems of the RaftLog model (C14) and are tied by the pointwise differential on the log section.",
+    "fixed voter configuration within an execution, no single-node quorum; compaction and snapshots appear only as forgetting a committed prefix (the acceptor observes the ghost full log, reconstructed from the committed history).",
+    "DESIGN.md section 7, C05",
+    "Theorems: Props/C05.v over P/Log.v (LogProofs.v). Ties: (B) log-layer acceptor; (A) pointwise differential on the log section.",
+    acceptor="plog")
+
+SPECS["C04"] = node_spec(
+    "C04", ["log", "progress"], "commit_rule",
+    "Props/C04.v: in the abstract protocol a commit point (T, k) is created only by a node in the leader role of term T whose entry k has term T and with a quorum (of every voter set, joint configurations included) in which every other member has a released acknowledgement >= k for term T - released only while its durable log covers it - and the leader counts itself only if its own durable log covers k; a node's commit index rises only by such a leader commit or up to an existing commit point its log agrees with; in every reachable state a non-zero commit index is covered by a commit point, and the entries of every commit point are in the durable log of a quorum." + PL_NOTE + " The arithmetic of the leader's commit computation (maybe_commit over the progress map, the own-term check, persisted-index accounting) is part of the node model and tied by the pointwise differential on log + progress.",
+    "fixed voter configuration within an execution, no single-node quorum; the clause about commit_term-guarded follower commits (this fork's MsgAppend/heartbeat commit_term field) is covered by the acceptor's LCommitF guard, not by a separate theorem.",
+    "DESIGN.md section 7, C04",
+    "Theorems: Props/C04.v over P/Log.v (LogSafety.v). Ties: (B) log-layer acceptor; (A) pointwise differential on log + progress.",
+    acceptor="plog")
+
+SPECS["C01"] = node_spec(
+    "C01", [], "sm_safety",
+    "Props/C01.v: in every execution of the abstract protocol, any two nodes agree on the entry at every index both report committed, and the entry a node reports committed at an index is the entry any node (the same node after crashes and restarts included) reports there in any later state; commit points are permanent and mutually consistent. The statement is shown FALSE (explicit execution, checked by computation) for the protocol without the guard that a log image becomes durable only after the hard state covering its entries' terms." + PL_NOTE + " Hand-off to the application (committed_entries of Ready, snapshots) is the subject of C07/C15 at node level.",
+    "fixed voter configuration within an execution, no single-node quorum; 'applied through a snapshot' is represented by the ghost full log (a snapshot only forgets a committed prefix).",
+    "DESIGN.md section 7, C01",
+    "Theorems: Props/C01.v over P/Log.v (LogSafety.v). Deciding tie: (B) log-layer acceptor on P-level traces (the pointwise differential is diagnostic only).",
+    acceptor="plog")
 
 SPECS["C02"] = node_spec(
     "C02", [], "election_safety",
@@ -197,6 +224,34 @@ SPECS["C15"] = node_spec(
     "the cross-node clause (installed state equals that of a node that applied the log to the snapshot index), the application state, and the step-level frame of compaction are not proved.",
     "DESIGN.md section 7, C15",
     "Theorems: Props/C15.v over M/Raft.v, M/RaftLog.v, M/MemStorage.v. Tie: pointwise differential, projection log+conf+progress+replication/response traffic.")
+
+SPECS["C17"] = node_spec(
+    "C17", ["transfer", "hard", "timers", "result", "msgs.other", "msgs.vote"], "transfer",
+    "Props/C17.v (33 pinned theorems, every node state and every input): a MsgTimeoutNow is queued only by a leader handling MsgAppendResponse or MsgTransferLeader, at most one per step, addressed to the pending transfer target whose matched index equals the leader's last index (every Raft step and every RawNode entry point); while a transfer is pending proposals and conf-change proposals return ProposalDropped with the state unchanged; the transfer timer: the tick at which election_elapsed reaches election_timeout clears the transfer, a leader step leaves (target, elapsed) alone, clears it, or starts a new transfer with elapsed 0, and any interleaving of RawNode calls containing enough ticks ends with no transfer pending (from every state reached from RawNode::new); every reset and the removal of the target from the voters clears it; requests naming an unknown node, a learner, the current target or the leader itself are exact no-ops / cancel only; the forced vote skips pre-vote, carries CAMPAIGN_TRANSFER and bypasses the check-quorum lease; a follower obeys MsgTimeoutNow only if promotable.",
+    "the cluster-level clause (after a completed transfer in a healthy cluster the target leads a higher term holding every committed entry while the old leader follows) is not proved (safety part follows from C02/C03 at P level; liveness is not a theorem); expiry under an unbounded stream of new transfer requests is excluded by hypothesis.",
+    "DESIGN.md section 7, C17",
+    "Theorems: Props/C17.v over M/Raft.v, M/RawNode.v. Tie: pointwise differential, projection transfer+hard+timers+results+vote/other traffic.")
+
+SPECS["C13"] = node_spec(
+    "C13", ["progress", "msgs.repl", "uncommitted", "result", "log"], "flow_control",
+    "Props/C13.v (35 pinned theorems, every node state and input): nothing is sent to a paused peer (snapshot outstanding, probe paused, window full), with the state unchanged; the exact shape of what maybe_send_append queues (one message; snapshot or append anchored at (next_idx-1, its term), entries as read from the log, commit = committed) and its effect on the progress (probe pauses after an entry-carrying append and stays paused on every later call; replicate consumes exactly one window slot, requires the window not full); entries of an emitted append are contiguous from the anchor, are the log's own entries, and respect max_size_per_msg unless a single entry (batching off); batching rewrites only the first queued append for the peer, keeps its anchor and contiguity (the defect found here, merging into an empty append anchored elsewhere, was fixed in /repo); the in-flight window invariant count <= cap is preserved by every Progress operation, by the whole Raft API and by every RawNode entry point, and no panic comes from the window; heartbeats carry commit = min(matched, committed); the uncommitted-size rule is characterised exactly (refused iff limited, non-empty payload, something outstanding and the sum exceeds the maximum); a proposal is dropped on a leader exactly for the four listed reasons; every queued append/heartbeat carries m_commit <= committed (invariant of the whole API).",
+    "that every queued MsgAppend stays a slice of the leader's current log across later steps needs leader-append-only (proved at P level, C05) and is a hypothesis here; cap = max_inflight_msgs at all times and the identification of window elements with unacknowledged messages are not proved; the size clause is stated with batching off, as in the property.",
+    "DESIGN.md section 7, C13",
+    "Theorems: Props/C13.v over M/Raft.v, M/Progress.v, M/Inflights.v, M/RaftLog.v. Tie: pointwise differential, projection progress+replication traffic+uncommitted+results+log.")
+
+SPECS["C07"] = node_spec(
+    "C07", ["result", "rawnode", "log"], "ready_contract",
+    "Props/C07.v (38 pinned theorems over every RawNode state unless an invariant is named): has_ready is true exactly when ready() would be non-empty; must_sync iff entries, a snapshot or a term/vote change are included; a Ready carries exactly the unstable suffix, the hard/soft state iff changed (then current), number = max_number+1 and pushes exactly one record; committed entries handed out are, under the RaftLog representation invariant of C14, limit_size of the logical log between max(commit_since_index+1, first) and min(committed, persisted+limit): contiguous, equal to the log's entries, above commit_since_index, at most committed, and with limit 0 only persisted entries (the former overflow defect for limit u64::MAX, fixed in /repo, is pinned as now total); commit_since_index never decreases and moves to the last handed-out entry or the snapshot index (then no committed entries in that Ready); on_persist_ready removes exactly the records up to the number and reports the last snapshot / (index, term); commit_ready panics exactly on the three contract breaches; a Ready that changes term or vote carries no immediate message and immediate messages occur only for a leader with no such change outstanding (fix 4e5e493); advancing the Ready just produced cannot panic and the next Ready carries nothing twice; lifetime level: over any non-panicking sequence of RawNode calls and storage writes from RawNode::new, the committed entries handed out have exactly the indexes start+1 .. commit_since_index in order, restarting at the snapshot index after a snapshot Ready.",
+    "preservation of the RaftLog representation invariant by node-level step/tick is a hypothesis at hand-out points (it is C14's invariant, proved there for the RaftLog operations); 'no altered entry over time' relies on committed-prefix immutability (C05/C01 at P level); the storage contents after each persisted Ready belong to the application.",
+    "DESIGN.md section 7, C07",
+    "Theorems: Props/C07.v over M/RawNode.v, M/Raft.v, M/RaftLog.v. Tie: pointwise differential, projection results (Ready/LightReady contents) + RawNode bookkeeping + log.")
+
+SPECS["C08"] = node_spec(
+    "C08", ["read", "result", "msgs.other", "msgs.resp"], "read_index",
+    "Props/C08.v (61 pinned theorems, every node state and message): the ReadOnly queue behaves as a duplicate-free FIFO with one pending entry per context (add, ack, advance; advance pops exactly the prefix through the acknowledged context, never panics under the invariant); a leader without a commit in its own term drops read requests; in Safe mode a request is recorded with the leader's commit index and one ctx-tagged heartbeat goes to every peer; read states and MsgReadIndexResp are released in handle_heartbeat_response only for a pending context whose acknowledgements plus the sender form a quorum, and exactly the queue prefix is served with the recorded indexes; the complete account of where read states come from in step (three origins) and that every other message type leaves them alone; responses are routed to the originating node only; every reset (follower/candidate/leader transition, higher term) drops all pending reads; heartbeat responses echo the context at the follower's term, lower-term heartbeats get no ack; step never lowers the commit index; RawNode::new starts with no pending read. Defect found by the monitor and fixed in /repo (6a9ae91): a removed/demoted leader with one remaining voter answered locally through the single-voter shortcut - regression guard pinned (a Safe leader that is not a voter never answers at once).",
+    "the cluster-level linearizability clause itself (index >= every commit index reached when the read was issued; a superseded leader stays silent) needs leader completeness and quorum intersection across nodes and is not proved as a theorem; it is exercised by the read_index monitor in the search only. The role of unique contexts is not proved.",
+    "DESIGN.md section 7, C08",
+    "Theorems: Props/C08.v over M/Raft.v (ReadOnly, step), M/RawNode.v. Tie: pointwise differential, projection read-only state + read states + results + heartbeat/read traffic.")
 
 SPECS["C09"] = node_spec(
     "C09", ["conf", "hard", "log", "result"], "conf_change",
